@@ -55,8 +55,10 @@ pub fn run_in_child(case: &Case, want_log: bool, timeout_s: u32) -> RunResult {
         // a child may announce that the next step can legitimately kill the process
         // (e.g. opening a deliberately corrupted database aborts on a huge allocation)
         let crumb_path = format!("/dev/shm/rlsim.crumb.{pid}");
-        if let Ok(c) = std::fs::read_to_string(&crumb_path) {
-            let _ = std::fs::remove_file(&crumb_path);
+        let crumb = std::fs::read_to_string(&crumb_path);
+        let _ = std::fs::remove_file(&crumb_path);
+        // (the supervisor's own alarm is a timeout of the harness, not an abort of the system)
+        if let (Ok(c), true) = (crumb, sig != libc::SIGALRM) {
             if let Ok(mut r) = serde_json::from_str::<RunResult>(&c) {
                 *r.stats.probes.entry(format!("process-died-signal-{sig}")).or_default() += 1;
                 return r;
